@@ -491,6 +491,8 @@ func runC02(c *Ctx) {
 	clauseStreamPosition(c, "C02.e")
 	clausePrivateCaches(c, "C02.f")
 	clauseSortedChunks(c, "C02.g")
+	clausePreReadAccounting(c, "C02.i")
+	clauseKeyInjective(c, "C02.h", [][2]string{{"fs/reader", "genID"}, {"fs/remote", "(*httpFetcher).genID"}})
 
 	// ---------- C02.a ----------
 	c.clause("C02.a", "T9", "every chunk-cache key in fs/reader is genID(id, offset, size) of one chunk: one ChunkEntryForOffset result, one chunkData, or the pre-reader callback's own parameters; the whole-file key is genID(id, 0, Σ sizes)", 7)
